@@ -10,6 +10,9 @@
 (*   flags with a --no- twin   --multi/--no-multi/+m  --sort/--no-sort/+s  --cycle  --tac  -e/+e  -i/+i          *)
 (*   required value            --query -q  --filter -f  --prompt  --delimiter -d  --tiebreak  --scheme  --nth -n *)
 (*                             --height  --history  --history-size  --walker  --tabstop  --pointer               *)
+(*                             --margin  --padding (1 to 4 sizes; --no-margin / --no-padding reset)              *)
+(*                             --border-label-pos --list-label-pos --input-label-pos --header-label-pos          *)
+(*                             --preview-label-pos (column and side; a later occurrence replaces BOTH)           *)
 (*   optional value            --multi[=N] --sort[=N] (numeric: next word taken only if it starts with a digit)  *)
 (*                             --border[=STYLE] --color[=SPEC] (next word taken unless it starts with - or +)    *)
 (*   cumulative                --bind (per key)  --expect (union; --no-expect clears)  --color (per colour)      *)
@@ -24,7 +27,8 @@
 (* Exceptions to "last occurrence wins" found in the documentation: the cumulative options above; --scheme.      *)
 (* CODE-DERIVED: a missing value is an error of the source it occurs in (a value is never taken from the next    *)
 (* source); range checks of --tabstop happen at the end of each source; the width check of --pointer happens     *)
-(* once after all sources (so an invalid pointer in the environment can still be overridden by argv).            *)
+(* once after all sources (so an invalid pointer in the environment can still be overridden by argv); so does   *)
+(* the (DOCUMENTED, --height) rule that an adaptive height excludes top/bottom margins / paddings in percent.    *)
 EXTENDS FzfBind
 
 Opt(o)    == [k |-> "opt", o |-> o,  v |-> <<>>]
@@ -37,9 +41,11 @@ Render(w) == Str(Atoms(w))
 
 -------------------------------------------------------------------------------
 (* atoms with a numeric reading *)
-NumAtoms == {"0", "1", "2", "3", "5", "8", "10", "30", "40", "50", "60", "80", "99", "100", "255", "256", "1000", "-1"}
-NumVal(a) == CASE a = "0" -> 0 [] a = "1" -> 1 [] a = "2" -> 2 [] a = "3" -> 3 [] a = "5" -> 5 [] a = "8" -> 8
-               [] a = "10" -> 10 [] a = "30" -> 30 [] a = "40" -> 40 [] a = "50" -> 50 [] a = "60" -> 60 [] a = "80" -> 80
+NumAtoms == {"0", "1", "2", "3", "5", "7", "8", "10", "30", "40", "49", "50", "60", "80", "99", "100", "255", "256", "1000",
+             "-1"}
+NumVal(a) == CASE a = "0" -> 0 [] a = "1" -> 1 [] a = "2" -> 2 [] a = "3" -> 3 [] a = "5" -> 5 [] a = "7" -> 7 [] a = "8" -> 8
+               [] a = "10" -> 10 [] a = "30" -> 30 [] a = "40" -> 40 [] a = "49" -> 49 [] a = "50" -> 50 [] a = "60" -> 60
+               [] a = "80" -> 80
                [] a = "99" -> 99 [] a = "100" -> 100 [] a = "255" -> 255
                [] a = "256" -> 256 [] a = "1000" -> 1000 [] a = "-1" -> 0 - 1
 DigitStart == NumAtoms \ {"-1"}
@@ -60,12 +66,18 @@ Sz(n, pct) == [size |-> n, percent |-> pct]
 NoTmux == [on |-> FALSE, pos |-> "", w |-> Sz(0, FALSE), h |-> Sz(0, FALSE), border |-> FALSE]
 DefaultTmux == [on |-> TRUE, pos |-> "center", w |-> Sz(50, TRUE), h |-> Sz(50, TRUE), border |-> FALSE]
 Undef == 0 - 2                                                  \* CODE-DERIVED: tui colUndefined
+MSz(n, f, pct) == [size |-> n, frac |-> f, percent |-> pct]     \* a margin / padding size: n + f/10 cells or percent
+NoMargin == <<MSz(0, 0, FALSE), MSz(0, 0, FALSE), MSz(0, 0, FALSE), MSz(0, 0, FALSE)>>      \* top, right, bottom, left
+DefaultLabelPos == [col |-> 0, bottom |-> FALSE]                \* centred, on the top border line
 Default == [multi |-> 0, sort |-> 1000, cycle |-> FALSE, tac |-> FALSE, fuzzy |-> TRUE, case |-> "smart",
             query |-> "", prompt |-> "> ", filter |-> "\\NIL", delimiter |-> "", criteria |-> <<>>, scheme |-> "",
             nth |-> <<>>, height |-> DefaultHeight, border |-> "undefined", fg |-> Undef, bg |-> Undef,
             pw |-> DefaultPW, expect |-> {}, keymap |-> EmptyKm, hon |-> FALSE, hpath |-> "", hsize |-> 1000,
             walker |-> [file |-> TRUE, dir |-> FALSE, hidden |-> TRUE, follow |-> TRUE], tabstop |-> 8,
             pointer |-> <<"\\NIL">>, exit |-> "",
+            margin |-> NoMargin, padding |-> NoMargin,
+            blpos |-> DefaultLabelPos, llpos |-> DefaultLabelPos, ilpos |-> DefaultLabelPos, hlpos |-> DefaultLabelPos,
+            plpos |-> DefaultLabelPos,          \* label positions: border, list, input, header, preview
             tmux |-> NoTmux, tidx |-> 0, hidx |-> 0]        \* tidx / hidx: word position of the --tmux / --height in force
 
 OK(c)  == [ok |-> TRUE, cfg |-> c]
@@ -159,7 +171,7 @@ HistPathOK(v) == /\ v # <<>> /\ v \notin {<<"..">>, <<".">>}
 
 (* --delimiter: a single character or a string without regex operators is literal, else a regular expression *)
 (* CODE-DERIVED; atoms that contain a regex operator, and those a regex cannot start with (then it is literal again) *)
-RegexSpecial == {"[", "]", "(", ")", "{", "}", "*", "+", "^", "$", "|", ".", "..", "+m", "+s", "+e", "+i"}
+RegexSpecial == {"[", "]", "(", ")", "{", "}", "*", "+", "^", "$", "|", ".", "..", "+m", "+s", "+e", "+i", "1.5"}
 NoRegexStart == {"+", "*", "+m", "+s", "+e", "+i"}
 Delimiter(v) == IF Len(Str(v)) = 1 \/ (\A i \in 1..Len(v) : v[i] \notin RegexSpecial) \/ v[1] \in NoRegexStart
                 THEN "str:" \o Str(v)
@@ -199,16 +211,64 @@ Tmux(v) ==
               w |-> IF Len(t2) = 3 THEN s1.val ELSE IF Len(t2) = 2 /\ pos \in {"left", "right", "center"} THEN s1.val ELSE w0,
               h |-> IF Len(t2) = 3 THEN s2.val ELSE IF Len(t2) = 2 /\ pos \in {"up", "down", "center"} THEN s1.val ELSE h0]]
 
+(* --margin / --padding = TRBL | TB,RL | T,RL,B | T,R,B,L : 1 to 4 comma-separated sizes, "each part can be given *)
+(* in absolute number or in percentage relative to the terminal size with % suffix" (DOCUMENTED).  Anything else  *)
+(* - no part, five or more parts, an empty part, a part that is no size - is a clean error.                       *)
+(* CODE-DERIVED (parseSize): a percentage may have a fraction, an absolute number may not; a negative number is    *)
+(* rejected; a percentage above 49 is rejected ("margin too large (max: 49%)").                                     *)
+FracAtoms == {"1.5"}                                       \* atoms with a fractional reading: <<whole, tenths>>
+MarginSize(p) ==
+    IF Len(p) = 1 /\ p[1] \in DigitStart THEN [ok |-> TRUE, val |-> MSz(NumVal(p[1]), 0, FALSE)]
+    ELSE IF Len(p) = 2 /\ p[2] = "%" /\ p[1] \in DigitStart /\ NumVal(p[1]) <= 49
+         THEN [ok |-> TRUE, val |-> MSz(NumVal(p[1]), 0, TRUE)]
+    ELSE IF p = <<"1.5", "%">> THEN [ok |-> TRUE, val |-> MSz(1, 5, TRUE)]
+    ELSE [ok |-> FALSE]
+Margin(v) ==
+    LET ps == Pieces(v, ",")                               \* Pieces(<<>>) is one empty part
+        n  == Len(ps)
+        s(k) == MarginSize(ps[k]).val IN
+    IF n > 4 \/ \E k \in 1..n : ~MarginSize(ps[k]).ok THEN [ok |-> FALSE]
+    ELSE [ok |-> TRUE, val |-> CASE n = 1 -> <<s(1), s(1), s(1), s(1)>>            \* all four sides
+                                 [] n = 2 -> <<s(1), s(2), s(1), s(2)>>            \* vertical, horizontal
+                                 [] n = 3 -> <<s(1), s(2), s(3), s(2)>>            \* top, horizontal, bottom
+                                 [] n = 4 -> <<s(1), s(2), s(3), s(4)>>]           \* top, right, bottom, left
+
+(* --X-label-pos = N[:top|bottom]  (DOCUMENTED: N > 0 column from the left, N < 0 right-aligned, 0 or `center`     *)
+(* centred; on the top border line unless :bottom).  The value states column AND side: what it leaves out is the  *)
+(* default (column 0 / top), never what an earlier occurrence said.                                                *)
+(* CODE-DERIVED (parseLabelPosition): the value is lower-cased and split at runs of "," / ":" into any number of   *)
+(* tokens in any order; top / bottom / center are keywords, every other token is read as an integer that sets the *)
+(* column; the value is rejected iff the LAST token that is not a keyword is no integer (so `bogus:3` is accepted *)
+(* as column 3 while `3:bogus`, `3:` and the empty value are rejected).                                            *)
+LabelSpell == {"--border-label-pos", "--list-label-pos", "--input-label-pos", "--header-label-pos",
+               "--preview-label-pos"}
+LabelField(o) == CASE o = "--border-label-pos" -> "blpos" [] o = "--list-label-pos" -> "llpos"
+                   [] o = "--input-label-pos" -> "ilpos" [] o = "--header-label-pos" -> "hlpos"
+                   [] o = "--preview-label-pos" -> "plpos"
+Lower(a) == IF a = "BOTTOM" THEN "bottom" ELSE a                  \* the only atom with upper-case letters used in these values
+LabelToken(st, t0) ==
+    LET t == [k \in 1..Len(t0) |-> Lower(t0[k])] IN
+    IF t = <<"center">> THEN [st EXCEPT !.col = 0]
+    ELSE IF t = <<"bottom">> THEN [st EXCEPT !.bottom = TRUE]
+    ELSE IF t = <<"top">> THEN [st EXCEPT !.bottom = FALSE]
+    ELSE IF Len(t) = 1 /\ t[1] \in NumAtoms THEN [st EXCEPT !.col = NumVal(t[1]), !.err = FALSE]
+    ELSE [st EXCEPT !.col = 0, !.err = TRUE]
+RECURSIVE LabelFrom(_, _, _)
+LabelFrom(st, ts, n) == IF n > Len(ts) THEN st ELSE LabelFrom(LabelToken(st, ts[n]), ts, n + 1)
+LabelPos(v) == LET r == LabelFrom([col |-> 0, bottom |-> FALSE, err |-> FALSE], RunTokens(v, <<>>, FALSE), 1) IN
+               IF r.err THEN [ok |-> FALSE] ELSE [ok |-> TRUE, val |-> [col |-> r.col, bottom |-> r.bottom]]
+
 -------------------------------------------------------------------------------
 (* options by spelling *)
 Canon(o) == CASE o = "-q" -> "--query" [] o = "-f" -> "--filter" [] o = "-d" -> "--delimiter" [] o = "-n" -> "--nth"
               [] o = "-m" -> "--multi" [] o = "-s" -> "--sort" [] OTHER -> o
 FlagSpell == {"--no-multi", "+m", "--no-sort", "+s", "--cycle", "--no-cycle", "--tac", "--no-tac", "-e", "--exact",
               "+e", "--no-exact", "-i", "--ignore-case", "+i", "--no-ignore-case", "--smart-case", "--no-expect",
-              "--no-history", "--no-height", "--no-border", "--no-tmux", "--help", "-h", "--version", "--"}
+              "--no-history", "--no-height", "--no-border", "--no-tmux", "--no-margin", "--no-padding", "--help", "-h",
+              "--version", "--"}
 ReqSpell == {"--query", "-q", "--filter", "-f", "--prompt", "--delimiter", "-d", "--tiebreak", "--scheme", "--nth",
              "-n", "--height", "--history", "--history-size", "--walker", "--tabstop", "--pointer",
-             "--preview-window", "--expect", "--bind"}
+             "--preview-window", "--expect", "--bind", "--margin", "--padding"} \cup LabelSpell
 OptNumSpell == {"--multi", "-m", "--sort", "-s"}
 OptStrSpell == {"--border", "--color", "--tmux"}
 AttSpell == {"-q", "-f", "-d", "-n", "-s", "-m"}
@@ -228,6 +288,8 @@ Flag(c, o) ==
       [] o = "--no-height" -> [c EXCEPT !.height = DefaultHeight, !.hidx = 0]
       [] o = "--no-tmux" -> [c EXCEPT !.tmux = NoTmux, !.tidx = 0]
       [] o = "--no-border" -> [c EXCEPT !.border = "none"]
+      [] o = "--no-margin" -> [c EXCEPT !.margin = NoMargin]
+      [] o = "--no-padding" -> [c EXCEPT !.padding = NoMargin]
       [] o \in {"--help", "-h"} -> [c EXCEPT !.exit = "help"]
       [] o = "--version" -> [c EXCEPT !.exit = "version"]
       [] o = "--" -> c
@@ -251,6 +313,9 @@ SetVal(c, o, v, idx) ==
       [] o = "--preview-window" -> LET r == PreviewWindow(c.pw, v) IN IF r.ok THEN OK([c EXCEPT !.pw = r.cfg]) ELSE BAD
       [] o = "--expect" -> LET r == KeyList(v) IN IF r.ok THEN OK([c EXCEPT !.expect = c.expect \cup r.keys]) ELSE BAD
       [] o = "--bind" -> LET r == ParseBind(c.keymap, v) IN IF r.err THEN BAD ELSE OK([c EXCEPT !.keymap = r.km])
+      [] o = "--margin" -> LET r == Margin(v) IN IF r.ok THEN OK([c EXCEPT !.margin = r.val]) ELSE BAD
+      [] o = "--padding" -> LET r == Margin(v) IN IF r.ok THEN OK([c EXCEPT !.padding = r.val]) ELSE BAD
+      [] o \in LabelSpell -> LET r == LabelPos(v) IN IF r.ok THEN OK([c EXCEPT ![LabelField(o)] = r.val]) ELSE BAD
 (* optional values: given = a value was supplied *)
 SetOpt(c, o, given, v, idx) ==
     CASE o = "--multi" -> IF ~given THEN OK([c EXCEPT !.multi = MaxMulti])
@@ -310,7 +375,8 @@ Source(st, ws) == EndSource(Fold(st, ws))
 Finish(c) == LET c1 == IF c.scheme = "" THEN [c EXCEPT !.scheme = "default",
                                                  !.criteria = IF c.criteria = <<>> THEN SchemeCriteria("default") ELSE c.criteria]
                        ELSE c IN c1                                   \* stdin is not a terminal in every run here
-FinalOK(c) == c.pointer = <<"\\NIL">> \/ TextLen(c.pointer) <= 2
+FinalOK(c) == /\ c.pointer = <<"\\NIL">> \/ TextLen(c.pointer) <= 2
+              /\ c.height.auto => \A m \in {c.margin, c.padding} : ~m[1].percent /\ ~m[3].percent     \* DOCUMENTED (--height)
 
 (* the whole thing: [err |-> TRUE, src] or [err |-> FALSE, cfg] *)
 Parse3(file, env, argv) ==
@@ -332,6 +398,8 @@ Proj(c) == [multi |-> c.multi, sort |-> c.sort, cycle |-> c.cycle, tac |-> c.tac
                         ELSE [on |-> FALSE, path |-> "", max |-> 0],
             walker |-> c.walker, tabstop |-> c.tabstop,
             pointer |-> IF c.pointer = <<"\\NIL">> THEN "\\NIL" ELSE Str(c.pointer), exit |-> c.exit,
+            margin |-> c.margin, padding |-> c.padding,
+            blpos |-> c.blpos, llpos |-> c.llpos, ilpos |-> c.ilpos, hlpos |-> c.hlpos, plpos |-> c.plpos,
             tmux |-> c.tmux, popup |-> c.tmux.on /\ c.tidx >= c.hidx]   \* popup: the comparison Run() makes (inside tmux)
 Outcome(file, env, argv) == LET r == Parse3(file, env, argv) IN
                             IF r.err THEN r ELSE [err |-> FALSE, cfg |-> Proj(r.cfg)]
